@@ -672,7 +672,7 @@ pub fn check(def: &'static PropDef, tier: &str, seed: u64) -> i32 {
         co.agg.budget,
         co.t0.elapsed().as_secs_f64()
     );
-    if exit == 0 && (!hard.is_empty() || budget_frac > 0.2 || co.agg.det_mismatch > 0) {
+    if exit == 0 && (!hard.is_empty() || budget_frac > 0.03 || co.agg.det_mismatch > 0) {
         for h in co.agg.harness.iter().take(10) {
             eprintln!("HARNESS: {h}");
         }
